@@ -1402,7 +1402,9 @@ impl Prop for P {
             v.push(Plan::new(&cell, q(6000, 120_000), q(300, 6000), case(Fam::Gold, max_keys, max_ops)));
         }
         for cell in ["gold_idx", "gold_idx_pool"] {
-            v.push(Plan::new(cell, q(10_000, 200_000), q(1000, 20_000), case(Fam::GoldIdx, max_keys, max_ops)));
+            // GoldHashIdx hashes with a per-process random key: which key sets form a probe cluster across
+            // the table end differs from worker to worker, hence the larger share of cases
+            v.push(Plan::new(cell, q(40_000, 400_000), q(2000, 20_000), case(Fam::GoldIdx, max_keys, max_ops)));
         }
         for cell in SMALL_CELLS {
             v.push(Plan::new(cell, q(12_000, 240_000), q(1200, 24_000), case(Fam::Small, q(40, 120), max_ops)));
